@@ -67,7 +67,19 @@ fn recording_proxy(l: TcpListener, log: Arc<Mutex<Vec<Vec<u8>>>>, reply: String,
     }
 }
 
+/// This family is about what is sent where, not about timing: an exchange that ran into one of its own (generous)
+/// socket timeouts on an overloaded machine is repeated once before it is judged.
 pub fn run(sc: &Value) -> Vec<String> {
+    let first = run_once(sc);
+    let timed_out = first.iter().any(|l| l.contains("\"res\":\"err\"") && (l.contains("TimedOut") || l.contains("WouldBlock")));
+    if timed_out {
+        std::thread::sleep(Duration::from_millis(300));
+        return run_once(sc);
+    }
+    first
+}
+
+fn run_once(sc: &Value) -> Vec<String> {
     let p = pki();
     let good_port = p.ports.iter().find(|x| x.0 == ("ca".to_string(), false, true)).unwrap().1;
     let token = format!("tk{}-{}", std::process::id(), gs(sc, "id").replace(['/', ' '], "_"));
